@@ -106,6 +106,7 @@ func c18RunAccessor() eng.Result {
 		}
 	}
 	c18RootList(&res)
+	c18NodeHooks(&res)
 	res.Outcomes = []string{"accessor-struct"}
 	return res
 }
@@ -157,6 +158,59 @@ func c18RootList(res *eng.Result) {
 					res.Add(site+"/wrong-result", fmt.Sprintf("after Delete of l=%s the map holds %d entries", victim, len(rows)))
 				}
 			}
+		}
+	}
+}
+
+// c18NodeHooks: nodeutil.Node with one of its list hooks set (the other left to the default): a
+// delete by key removes exactly the entry, the delete hook - when given - is the one that is asked.
+func c18NodeHooks(res *eng.Result) {
+	m := model.SharedSchema("base")
+	type row struct {
+		K string
+		V int
+	}
+	type holder struct{ L []*row }
+	for _, hook := range []string{"get-only", "delete-only", "both", "none"} {
+		obj := &holder{L: []*row{{K: "a", V: 1}, {K: "b", V: 2}, {K: "c", V: 3}}}
+		deleteAsked := 0
+		n := &nodeutil.Node{Object: obj}
+		if hook == "get-only" || hook == "both" {
+			n.OnGetByKey = func(x *nodeutil.Node, r node.ListRequest) (node.Node, error) { return x.DoGetByKey(r) }
+		}
+		if hook == "delete-only" || hook == "both" {
+			n.OnDeleteByKey = func(x *nodeutil.Node, r node.ListRequest) error {
+				deleteAsked++
+				return x.DoDeleteByKey(r)
+			}
+		}
+		b := node.NewBrowser(m, n)
+		var err error
+		fr, msg, pan := eng.Recover(func() {
+			var sel *node.Selection
+			if sel, err = b.Root().Find("l=b"); err == nil && sel != nil {
+				err = sel.Delete()
+			} else if err == nil {
+				err = fmt.Errorf("harness: entry not found")
+			}
+		})
+		res.Evals++
+		res.Nontriv++
+		res.States++
+		site := "C18/node-list-hooks/" + hook + "/delete-entry"
+		var left []string
+		for _, r := range obj.L {
+			left = append(left, r.K)
+		}
+		switch {
+		case pan:
+			res.Add(site+"/panic:"+fr, msg)
+		case err != nil:
+			res.Add(site+"/error-on-valid", err.Error())
+		case fmt.Sprint(left) != "[a c]":
+			res.Add(site+"/wrong-result", fmt.Sprintf("entries left: %v", left))
+		case (hook == "delete-only" || hook == "both") && deleteAsked != 1:
+			res.Add(site+"/delete-hook-not-asked", fmt.Sprintf("OnDeleteByKey called %d times", deleteAsked))
 		}
 	}
 }
